@@ -18,8 +18,8 @@ class IngestUnit(Unit):
         return 'bounded.structure.cif_pdb_ingestion'
 
     def run(self, tier, seed):
-        n = 400 if tier == 'quick' else 6000
-        procs = 8
+        n = 1600 if tier == 'quick' else 12000
+        procs = 16
         per = n // procs
         src = os.environ.get('XFAB_SRC', '/repo')
         ps = []
